@@ -40,7 +40,7 @@ def cpu_statistics(latest_values: JiffiesList, ref_values: JiffiesList) -> CPUIn
         work = latest_work - ref_work
         idle = latest_idle - ref_idle
         total = work + idle
-        cpu.append(100.0 * work / total if total else 0)
+        cpu.append(100.0 * (work / total) if total else 0)
     return cpu
 
 
